@@ -109,8 +109,8 @@ func Yield(label string) {
 	<-w.ch
 }
 
-// DoLock takes a lock of the code under test: a gate, then the lock. In fine mode the lock is taken
-// with try at a gate, and the goroutine goes back to the gate when somebody else holds it.
+// DoLock takes a lock of the code under test: a gate, then the lock, taken with try; the goroutine goes
+// back to the gate when somebody else holds it and is offered again once a lock has been released.
 func DoLock(label string, try func() bool, lock func()) {
 	s := cur.Load()
 	if s == nil {
@@ -120,15 +120,16 @@ func DoLock(label string, try func() bool, lock func()) {
 	}
 	g := Goid()
 	s.mu.Lock()
-	fine := s.Fine && !s.closed && !s.exempt[g]
+	plain := s.closed || s.exempt[g] || (s.held[g] > 0 && !s.Fine)
 	s.mu.Unlock()
-	if !fine {
-		Yield(label)
+	if plain { // no gate here (controller, or a nested lock inside an atomic critical section)
 		lock()
 		Acquired()
 
 		return
 	}
+	// The lock is taken with try at the gate: the holder may be blocked (on a channel, say) while it
+	// holds the lock, and a goroutine waiting in a real Lock would never let the bubble come to rest.
 	var fail uint64
 	for {
 		s.mu.Lock()
